@@ -48,7 +48,7 @@ theorem C09_probe_transitions (t : Tgt) :
     for it), probes start failing, time passes (a failed probe at t=1s), the drain times out and
     restores healthy; after resume the next request is sent to the target whose latest probe failed. -/
 def f19 : List Op :=
-  [.hold (asciiB "a:80") true, .deploy 1 (asciiB "s1") false [asciiB "a:80"] 2000000000 700000000,
+  [.hold (asciiB "a:80") true, .deploy 1 (asciiB "s1") (asciiB "s1") false [asciiB "a:80"] 2000000000 700000000,
    .req 1 (asciiB "s1") [] false,
    .advance 400000000,
    .pause 2 (asciiB "s1") 900000000 5000000000,          -- drain until t = 1.3 s
@@ -63,7 +63,7 @@ theorem C09_witness_F19 :
     ((runOps f19).tgts.map fun t => (showB t.name, t.st)) = [("a:80", .healthy)] := by decide +kernel
 
 -- sanity (tests by evaluation): a failing target leaves the rotation, recovers, and a second one shares traffic
-example : (runOps [.deploy 1 (asciiB "s1") false [asciiB "a:80", asciiB "b:80"] 2000000000 700000000,
+example : (runOps [.deploy 1 (asciiB "s1") (asciiB "s1") false [asciiB "a:80", asciiB "b:80"] 2000000000 700000000,
     .target (asciiB "a:80") .fail, .advance 1000000001,
     .req 1 (asciiB "s1") [] false, .req 2 (asciiB "s1") [] false]).events.filter (·.startsWith "done") =
     ["done r1 status=200 by=b:80", "done r2 status=200 by=b:80"] := by decide +kernel
